@@ -57,7 +57,7 @@ def plan(seed, tier):
             {
                 "world": c02.GEN_WORLD,
                 "fn": "gen_programs",
-                "payload": {"seed": "%s/c03gen/%d" % (seed, g), "count": nprog // ngen, "tier": tier},
+                "payload": {"seed": "%s/c03gen/%d" % (seed, g), "count": nprog // ngen, "tier": tier, "corpus": g < (2 if tier == "quick" else 16)},
                 "timeout": 300,
             }
         )
@@ -517,9 +517,11 @@ def _run_memo_history(hist):
         funsor.Number(0.5),
     ]
     violations = []
+    seen = {}  # (cache name, base, op kind, id(x), id(y)) -> (result, x, y): the caller's dict must serve repeats across blocks
     for block in hist:
         base = execs.INTERPS[block["base"]]
         cache = caches.get(block["cache"]) if block["cache"] else None
+        calls_before = mon.calls
         try:
             with base:
                 with memoize(cache):
@@ -558,9 +560,32 @@ def _run_memo_history(hist):
                                         "message": "under memoize(), %s(%s) returned a %s term" % (kind, type(x).__name__, funsor.typing.get_origin(type(z)).__name__),
                                     }
                                 )
+                        if block["cache"] and isinstance(z, funsor.Funsor):
+                            if kind == "tensor":
+                                key = (block["cache"], block["base"], kind, id(slots[a % 3]), 0)
+                                x = slots[a % 3]  # keep the array alive while its id is part of a key
+                            else:
+                                key = (block["cache"], block["base"], kind, id(x), id(y) if kind in ("F2", "add", "mul") else 0)
+                            prev = seen.get(key)
+                            if prev is not None and prev[0] is not z and not violations:
+                                violations.append(
+                                    {
+                                        "invariant": "memo-not-identical",
+                                        "message": "the same expression (%s of the same operands) evaluated in two memoize(cache) blocks sharing the caller's dict %s gave two different objects"
+                                        % (kind, block["cache"]),
+                                    }
+                                )
+                            seen.setdefault(key, (z, x, y))
                         pool[(a + b) % len(pool)] = z if isinstance(z, funsor.Funsor) else pool[(a + b) % len(pool)]
         except Exception:  # noqa
             pass
+        if block["cache"] and mon.calls > calls_before and not cache and not violations:
+            violations.append(
+                {
+                    "invariant": "memo-cache-not-filled",
+                    "message": "memoize(cache) made %d interpret calls but the caller's dict %s is still empty" % (mon.calls - calls_before, block["cache"]),
+                }
+            )
         after = block["after"]
         events[after] = events.get(after, 0) + 1
         if "drop" in after:
